@@ -7,7 +7,7 @@ ALLOWED_AXIOMS = {
 }
 
 INBOUND_ASSUMPTIONS = ["klauspost inflater is a parameter of the model: instantiated per case by the results of Go's compress/flate on the same (dictionary, input) pairs",
-                       "unicode/utf8.Valid verdicts shipped with the case (Model/Utf8 is validated against it under C16)",
+                       "unicode/utf8.Valid verdicts are computed by Model/Utf8.utf8_valid inside the runner (Model/Utf8 is proved equal to the RFC 3629 specification and validated against unicode/utf8 under C16)",
                        "bufio.Reader/io.ReadFull deliver the transport's bytes in order (T1); net/http parsing is not modelled"]
 
 REGISTRY = {
